@@ -193,6 +193,9 @@ func c12Worker(w *W) {
 					lv := []string{"", "ERROR", "INFO~WARN", "fatal", "", "MAX", "warn~warn", "ERROR~INFO"}[r.IntN(8)]
 					lg.Levels = append(lg.Levels, lv)
 					cfg["appender."+s+".type"] = "VRec"
+					if r.IntN(4) == 0 {
+						cfg["appender."+s+".type"] = "VTap" // a user appender that embeds the library's DiscardAppender and overrides Write
+					}
 					if lg.Slow && i == 0 {
 						cfg["appender."+s+".type"] = "VSlow"
 						cfg["appender."+s+".delayUs"] = "40"
